@@ -6,7 +6,9 @@
      Reset{H, prios, share, sat, fault}   start of a trace (share = divider(all priorities, H) of the real divider)
      W{c,k}   item k (1,2,..) written to the input registered for priority c
      C{c}     that input closed            R{p,c,k}  item received from Output(), tagged p
-     L{p}     Release(p) issued            Q{held}   stall point: every open input kept full, nothing released,
+     L{p}     Release(p) issued            A{p} / QA{p,held}  C06 scenario: from "nothing in flight", only priority p is given data, nothing is released; stall point
+     Starved{c}  written items of input c not delivered by the virtual deadline although every received item was released
+     Q{held}   stall point: every open input kept full, nothing released,
                                                      the discipline has stopped handing out items
      OC / EC  Output() / Err() observed closed       EV{note} value read from Err()
      Deadline / Leak   harness-detected absence of termination / leftover goroutine
@@ -72,6 +74,10 @@ Step ==
                                         \cup (IF Cfg.fault /\ e.note # "divider produces an incorrect distribution" THEN {"C15"} ELSE {})
                         /\ UNCHANGED <<wr, rc, nr, nl, cl, oc, ec>>
        [] e.e = "Deadline" -> viol' = viol \cup {IF Cfg.fault THEN "C15" ELSE "C07"} /\ UNCHANGED <<wr, rc, nr, nl, cl, oc, ec>>
+       [] e.e = "Starved" -> viol' = viol \cup {"C06"} /\ UNCHANGED <<wr, rc, nr, nl, cl, oc, ec>>
+       [] e.e = "QA" -> \* only priority e.p had data, nothing else in flight, nothing released: it must hold all H handlers
+                        /\ viol' = viol \cup (IF HeldOf(e, e.p) # Cfg.H THEN {"C06"} ELSE {})
+                        /\ UNCHANGED <<wr, rc, nr, nl, cl, oc, ec>>
        [] e.e = "Leak" -> viol' = viol \cup {"C19"} /\ UNCHANGED <<wr, rc, nr, nl, cl, oc, ec>>
        [] e.e = "NoErr" -> viol' = viol \cup {"C15"} /\ UNCHANGED <<wr, rc, nr, nl, cl, oc, ec>>
        [] e.e = "SentAfterBad" -> viol' = viol \cup {"C15"} /\ UNCHANGED <<wr, rc, nr, nl, cl, oc, ec>>
@@ -83,6 +89,7 @@ Spec == Init /\ [][Next]_vars
 M_C01 == "C01" \notin viol
 M_C02 == "C02" \notin viol
 M_C05 == "C05" \notin viol
+M_C06 == "C06" \notin viol
 M_C07 == "C07" \notin viol
 M_C15 == "C15" \notin viol
 M_C19 == "C19" \notin viol
